@@ -498,6 +498,9 @@ int main(int argc, char** argv) {
     init_alphabet();
     if (a.replay) {
         auto parts = split(a.sig, '|');
+        // during a run every case comes after rejected pointers have been parsed in the same process; a replay starts from that
+        // history too (state kept between calls would otherwise only show in the run, not in the replay)
+        for (const char* bad : {"a", "/~", "/a~2", "/m~", "/foo/ba~2r"}) { std::error_code ec; auto p = jp::json_pointer::parse(bad, ec); (void)p; }
         if (parts[0] == "PS" && parts.size() == 2) check_syntax(unhex(parts[1]));
         else if (parts[0] == "PE" && parts.size() == 4) { if (parts[1] == "json") replay_edit<json>(a.sig, parts); else replay_edit<ojson>(a.sig, parts); }
         else if (parts[0] == "PF" && parts.size() == 3) { MV d = parse_or_die(unhex(parts[2])); if (parts[1] == "json") check_flat_type<json>(d); else check_flat_type<ojson>(d); }
